@@ -235,6 +235,28 @@ def relational_kdf(chk, exe, r, kind):
                     ex.append(e)
             execs.append(ex)
             execs.append([{"e": "Reset", "id": f"refv{pi}"}, dict(ref, id=f"refcheck{pi}")])      # the reference itself, interpreted
+        # info of 64 KiB and more (a length kept in 16 bits would wrap): a 96-byte reference, three expands
+        for li, il in enumerate([65536 + 5] + ([70000] if chk.thorough else [])):
+            key, salt, info = r.bytes(16), r.bytes(8), r.bytes(il)
+            lines = [f"hkdf id=refL{li} len=96 key={hx(key)} salt={hx(salt)} info={hx(info)}",
+                     f"hkextract id=ptL{li}x obj=0 key={hx(key)} salt={hx(salt)}"] + \
+                    [f"hkexpand id=ptL{li}e{j} obj=0 info={hx(info)} len={n}" for j, n in enumerate([10, 30, 56])]
+            ev, _ = run_driver(exe, [f"reset id=relL{li}"] + lines, timeout=900)
+            ref = next((e for e in ev if e.get('id') == f"refL{li}"), None)
+            if ref is None or 'out' not in ref:
+                execs.append(ev)
+                continue
+            tag = [50 + li]
+            ex = [ev[0], dict(e='KdfLearn', id=f"refL{li}", tag=tag, out=ref['out'])]
+            for e in ev[1:]:
+                if e.get('e') == 'HkExtract':
+                    ex.append(dict(e='KdfExtract', id=e['id'], obj=e['obj'], tag=tag))
+                elif e.get('e') == 'HkExpand':
+                    ex.append(dict(e='KdfExpand', id=e['id'], obj=e['obj'], len=e['len'], res=e['res'], out=e['out'], canary=e['canary'], ocanary=e['ocanary']))
+                elif e.get('e') == 'Fault':
+                    ex.append(e)
+            execs.append(ex)
+            execs.append([{"e": "Reset", "id": f"refvL{li}"}, dict(ref, id=f"refcheckL{li}")])
         chk.cov['relational_hkdf_events'] = sum(len(x) for x in execs)
     else:
         for pi in range(2 if not chk.thorough else 4):
@@ -300,7 +322,17 @@ def check_C10(chk):
     # in place: the digest replaces the start of the message (the repository's own tests use the one-shot functions this way)
     for n in (0, 1, 16, 31, 32, 33, 64, 100, 257):
         lines.append(f"hash id=ip{n} m={datav(r, n) if n else '-'} inplace=1")
-    groups = chunks(lines, 12)
+    # chaining values no sampled message reaches (2^-32 per word): injected into the state object, then absorbed / finalized
+    FF, ZZ = 'ff' * 4, '00' * 4
+    inj = []
+    for ji, (Lh, Rh) in enumerate([(r.hex(16), FF + r.hex(12)), (r.hex(16), ZZ + r.hex(12)), (r.hex(16), r.hex(12) + FF), (FF * 4, FF * 4),
+                                   (ZZ * 4, FF * 4), (FF * 4, ZZ * 4), (ZZ + r.hex(12), r.hex(4) + ZZ + r.hex(8)), (r.hex(16), r.hex(16))]):
+        o = ji % 8
+        inj.append([f"hinject id=j{ji}a obj={o} L={Lh} R={Rh}", f"hupdate id=j{ji}b obj={o} d={datav(r, 20)} op=0", f"hfinal id=j{ji}c obj={o} op=0",
+                    f"hinject id=j{ji}d obj={o} L={Lh} R={Rh}", f"hfinal id=j{ji}e obj={o} op=0",
+                    f"hinject id=j{ji}f obj={o} L={Lh} R={Rh}", f"hupdate id=j{ji}g obj={o} d={datav(r, 16)} op=0",
+                    f"hupdate id=j{ji}h obj={o} d={datav(r, 3)} op=0", f"hfinal id=j{ji}i obj={o} op=0"])
+    groups = chunks(lines, 12) + inj
     cfgs = ['prod', 'alt3', 'dbg', 'shared', 'portable', 'os', 'uchar'] + (['alt', 'o2', 'alt0'] if chk.thorough else [])
     execs, plans, seen = [], [], set()
     for cfg in cfgs:
@@ -318,6 +350,8 @@ def check_C10(chk):
             for e in ex:
                 if e.get('e') == 'Hash':
                     e['learn'] = 0
+                if e.get('e') in ('HUpdate', 'HFinal'):
+                    e.setdefault('op', 0)
                 if cfg != 'prod':
                     e['id'] = f"{cfg}:{e.get('id')}"
             execs.append(ex)
